@@ -40,7 +40,7 @@ ASSUMPTIONS = [
     "task bodies of at most 4 molecules; preemption bound 1 in the quick tier (2 threads), 2 in the thorough tier (2 and 3 threads)",
     "plumbing tasks of the dask graph (aliases, data nodes, identity/finalize helpers) are pure and are not permuted; the unreduced enumeration is cross-checked on 2 molecules",
     "only the numpy backend exists in this sandbox (cupy paths unreachable)",
-    "loader.classify is not explored under E3: dask's static order of its PCA graph is not reproducible between runs (tie-breaks on uuid keys), so recorded schedules cannot be replayed; its chunk-composition behaviour is covered by C18",
+    "uuid.uuid4 is replaced by a counter while a body runs under the controlled scheduler: dask names delayed objects with uuid4 and breaks optimisation / ordering ties on those names, which would make recorded schedules unreplayable",
     "real thread pools ('threads' scheduler with 1..16 workers) are run free for equality only (confirmation, not exploration)",
 ]
 
@@ -95,7 +95,8 @@ def _cls(name):
     return {"ZNCC": al.ZNCCAlignment, "NCC": al.NCCAlignment, "PCC": al.PCCAlignment, "FSC": al.FSCAlignment}[name]
 
 
-BOX = (6, 6, 6)
+BOX = (6, 7, 5)  # non-cubic on purpose: shape-dependent state shared between tasks must not leak
+TILT = (-60.0, 60.0)
 
 
 def _universe(n, seed=0, chunks=None):
@@ -134,6 +135,7 @@ for _n in (2, 3):
     A_HARNESSES.append({"op": "batch.align", "model": "ZNCC", "n": _n})
     A_HARNESSES.append({"op": "group.average", "model": "-", "n": _n + 1})
 A_HARNESSES.append({"op": "average-chunked", "model": "-", "n": 3})
+A_HARNESSES.append({"op": "classify", "model": "-", "n": 4})
 
 
 def _a_body(h):
@@ -157,24 +159,24 @@ def _a_body(h):
         if op == "average_split":
             return np.asarray(ld.average_split(n_set=2, seed=1))
         if op == "align":
-            out = ld.align(tm, max_shifts=1.2, alignment_model=_cls(mname))
+            out = ld.align(tm, max_shifts=1.2, alignment_model=_cls(mname), tilt=TILT)
             return [out.molecules.pos, out.molecules.quaternion(), out.molecules.features.select(["score", "align-dz", "align-dy", "align-dx"]).to_numpy()]
         if op == "align-rot":
-            out = ld.align(tm, max_shifts=1.2, alignment_model=_cls(mname), rotations=((0, 0), (0, 0), (20, 20)))
+            out = ld.align(tm, max_shifts=1.2, alignment_model=_cls(mname), rotations=((0, 0), (0, 0), (20, 20)), tilt=TILT)
             return [out.molecules.pos, out.molecules.quaternion(), out.molecules.features.select(["score"]).to_numpy()]
         if op == "align_multi_templates":
             out = ld.align_multi_templates([tm, tm[::-1].copy()], max_shifts=1.2, alignment_model=_cls(mname))
             return [out.molecules.pos, out.molecules.features.select(["score", "labels"]).to_numpy()]
         if op == "score":
-            return np.asarray(ld.score([tm, tm[::-1].copy()], alignment_model=_cls(mname)))
+            return np.asarray(ld.score([tm, tm[::-1].copy()], alignment_model=_cls(mname), tilt=TILT))
         if op == "landscape":
-            return np.asarray(ld.construct_landscape(tm, max_shifts=1.0, alignment_model=_cls(mname)).compute())
+            return np.asarray(ld.construct_landscape(tm, max_shifts=1.0, alignment_model=_cls(mname), tilt=TILT).compute())
         if op == "batch.align":
             tomo2, _, _ = _universe(n, seed=1)
             b = BatchLoader(order=1, output_shape=BOX)
             b.add_tomogram(tomo, mole, image_id=0)
             b.add_tomogram(tomo2, mole.subset(slice(0, 2)), image_id=1)
-            out = b.align(tm, max_shifts=1.2, alignment_model=_cls(mname))
+            out = b.align(tm, max_shifts=1.2, alignment_model=_cls(mname), tilt=TILT)
             return [out.molecules.pos, out.molecules.features.select(["score", "image-id"]).to_numpy()]
         if op == "group.average":
             avg = ld.groupby("g").average()
@@ -209,7 +211,7 @@ def _run_a(case):
             nexec += 1
             ntrans += len(s.trace)
             maxpoints = max(maxpoints, len(s.points))
-            ndev += 1 if any(choices) else 0
+            ndev += 1 if any(c != d0 for c, d0 in zip(choices, s.defaults)) else 0
             key = f"raised-{type(res[1]).__name__}" if res[0] == "raised" else canon(res[1])
             outcomes[key] = outcomes.get(key, 0) + 1
             if key != ref_key and example is None:
@@ -237,12 +239,15 @@ def _run_a(case):
         r2 = sd.run_with(choices, body, reduce_pure=case.get("reduce", True))[1]
         k1 = f"raised-{type(r1[1]).__name__}" if r1[0] == "raised" else canon(r1[1])
         k2 = f"raised-{type(r2[1]).__name__}" if r2[0] == "raised" else canon(r2[1])
-        if not (k1 == k2 == key):
-            return {"harness_error": f"schedule {choices} of harness {h} does not replay deterministically: {key} / {k1} / {k2}"}
+        if k1 == ref_key and k2 == ref_key:
+            # the deviation cannot be reproduced at all from the recorded schedule: nondeterminism we do not own (R3)
+            return {"harness_error": f"schedule {choices} of harness {h} does not replay: {key} then {k1} / {k2} (reference {ref_key})"}
+        reproducible = (k1 == k2 == key)
         what = key if key.startswith("raised") else "result-differs"
         msg = (f"{h['op']} ({h['model']}, {h['n']} molecules) under task order {trace} "
                + (f"raised {type(res[1]).__name__}: {res[1]}" if res[0] == "raised" else "differs from the sequential result")
-               + f"; choices {choices}; {len(outcomes)} distinct outcomes over {nexec} orders")
+               + f"; choices {choices}; {len(outcomes)} distinct outcomes over {nexec} orders"
+               + ("" if reproducible else "; replaying the schedule again deviates from the reference too, but not bit-identically (the wrong value itself depends on leftover state)"))
         viol.append((f"{ID}|task-order|{h['op']}|{what}", msg))
     return {"nontrivial": nexec > 1, "outcome": f"a|{h['op']}|{completed}|{len(outcomes)}-outcomes", "viol": viol,
             "metrics": {"a_executions": nexec, "a_executions_deviating": ndev, "a_tasks_executed": ntrans, "a_max_choice_points": maxpoints, "a_capped": float(capped)},
@@ -505,6 +510,8 @@ def _c_alphabet():
         "mask(5,60,i)": lambda: np.asarray(single_axis((-60.0, 60.0)).create_mask(roti, (5, 5, 5))),
         "mask(5,40x,g)": lambda: np.asarray(single_axis((-40.0, 55.0), "x").create_mask(rotg, (5, 5, 5))),
         "mask(465,60,g)": lambda: np.asarray(single_axis((-60.0, 60.0)).create_mask(rotg, (4, 6, 5))),
+        "mask(465,60,i)": lambda: np.asarray(single_axis((-60.0, 60.0)).create_mask(roti, (4, 6, 5))),
+        "mask(465,40x,i)": lambda: np.asarray(single_axis((-40.0, 55.0), "x").create_mask(roti, (4, 6, 5))),
         "dual(5)": lambda: np.asarray(dual_axis((-60.0, 60.0), (-40.0, 40.0)).create_mask(rotg, (5, 5, 5))),
         "be.wedge(5)": lambda: np.asarray(be.missing_wedge_mask(rotg, (-60.0, 60.0), (5, 5, 5))),
         "utils.wedge(5)": lambda: np.asarray(_utils.missing_wedge_mask(rotg, (-60.0, 60.0), (5, 5, 5))),
@@ -681,7 +688,7 @@ def cases(tier, seed):
     out = []
     # (a)
     for h in A_HARNESSES:
-        if h["n"] <= 3 and h["op"] not in ("average-chunked",):
+        if h["n"] <= 3 and h["op"] not in ("average-chunked", "classify"):
             mode = "all"
         else:
             mode = "d1" if tier == "quick" else "d2"
@@ -696,7 +703,7 @@ def cases(tier, seed):
     for i, h in enumerate(_b_harnesses(tier)):
         out.append({"family": "b", "harness": h, "cap": 8000, "want_census": i == 0})
     # (c)
-    nalpha = 14
+    nalpha = 16
     for lo in range(0, nalpha, 2):
         out.append({"family": "c", "lo": lo, "hi": min(nalpha, lo + 2), "depth": 3})
     # (d)
